@@ -114,6 +114,7 @@ type Backend struct {
 	busy  int // Data callbacks in flight
 	inRd  int // of those, how many are inside r.Read right now
 	rdG   map[int64]int // goroutine ids currently inside r.Read
+	begun map[*smtp.Conn]int // Data/LMTPData callbacks begun, per connection
 
 	// Static shape of the sessions handed out.
 	AuthCapable bool
@@ -394,7 +395,13 @@ func (b *Backend) NewSession(c *smtp.Conn) (smtp.Session, error) {
 		return nil, err
 	}
 	b.nsess++
-	s := &sess{b: b, id: b.nsess}
+	s := &sess{b: b, id: b.nsess, conn: c}
+	if b.begun == nil {
+		b.begun = map[*smtp.Conn]int{}
+	}
+	if _, ok := b.begun[c]; !ok {
+		b.begun[c] = 0
+	}
 	b.log(Call{Name: "NewSession", Sess: s.id, Hostname: host, TLS: isTLS})
 	auth, lmtp := b.AuthCapable, b.LMTPCapable
 	b.mu.Unlock()
@@ -410,8 +417,18 @@ func (b *Backend) NewSession(c *smtp.Conn) (smtp.Session, error) {
 }
 
 type sess struct {
-	b  *Backend
-	id int
+	b    *Backend
+	id   int
+	conn *smtp.Conn
+}
+
+// Begun returns how many Data/LMTPData callbacks have begun on sessions of
+// connection c, and whether c has had a session of this backend at all.
+func (b *Backend) Begun(c *smtp.Conn) (int, bool) {
+	b.mu.Lock()
+	defer b.mu.Unlock()
+	n, ok := b.begun[c]
+	return n, ok
 }
 
 func (s *sess) Reset() {
@@ -543,6 +560,7 @@ func (s *sess) data(name string, r io.Reader, st smtp.StatusCollector) error {
 	plan, x := s.popPlan()
 	s.b.busy++
 	s.b.log(Call{Name: name, Phase: "begin", Sess: s.id, Xfer: x})
+	s.b.begun[s.conn]++
 	s.b.mu.Unlock()
 	ended := false
 	end := func(got []byte, rerr string, err string) {
